@@ -171,9 +171,7 @@ def check_forward(ctx, F):
                               "an orthogonal ancestor (no requestedOrthoFork(...).set)" if bad == "ortho" else "a composite ancestor (neither compoRequested nor compoRemains)"), {})
 
 
-def check(ctx, F):
-    check_forward(ctx, F)
-    E = Effects(F)
+def check_round(ctx, F, extras=False, E=None):
     for fid, b in insts(F, "R_", {"processTransitions", "initialEnter"}):
         site = "R_::" + b["name"]
         rex = RE_PROCESS if b["name"] == "processTransitions" else RE_INITIAL
@@ -196,8 +194,21 @@ def check(ctx, F):
                           {"tokens": bad, "legend": "A applyRequest, N+/- registry != backup, P pending:=requests, RC requests.clear, g guards call, "
                                                     "G+/- approved, PLUS current+=pending, BK backup, RS restore, PC pending.clear, TC transitionTargets.clear, "
                                                     "D deepChangeToRequested/deepEnter, CR clearRequests, L loop bound test, R requests.count test"})
-        check_bounded(ctx, F, fid, b, site)
-        check_backup_covers(ctx, F, E, fid, b, site)
+        if extras:
+            check_bounded(ctx, F, fid, b, site)
+            check_backup_covers(ctx, F, E, fid, b, site)
+
+
+def check(ctx, F):
+    check_forward(ctx, F)
+    from .common import check_accessors
+    check_accessors(ctx, F, "C04.forward")        # the guard walk reads the requested prongs / bits through these accessors
+    E = Effects(F)
+    check_round(ctx, F, extras=True, E=E)
+    check_rest(ctx, F, E)
+
+
+def check_rest(ctx, F, E):
     check_guard_order(ctx, F)
     check_backup_pair(ctx, F)
 
